@@ -113,6 +113,7 @@ package shape
 //@   ensures [malformed] !isext(extendedSpatialId) ==> r1 != nil && len(r0) == 0
 //@   ensures [zoom] isext(extendedSpatialId) && !(0 <= val(fld(extendedSpatialId, 0)) && val(fld(extendedSpatialId, 0)) <= 35 && 0 <= val(fld(extendedSpatialId, 3)) && val(fld(extendedSpatialId, 3)) <= 35) ==> r1 != nil && len(r0) == 0
 //@   ensures [option] option != 0 && option != 1 ==> r1 != nil && len(r0) == 0
+//@   ensures [non-nil] r1 == nil ==> (forall k :: 0 <= k && k < len(r0) ==> r0[k] != nil)
 //@ end
 
 //@ func GetPointOnSpatialId
